@@ -1,6 +1,7 @@
 package main
 
 import (
+	"path/filepath"
 	"bufio"
 	"bytes"
 	"crypto/ecdsa"
@@ -121,7 +122,7 @@ func runC16ConcChild(_ *out, _ bool, _ *rng, _ []string) map[string]interface{} 
 
 // concurrentParse hands the inputs to one child process that parses them from 8 goroutines at once
 func concurrentParse(o *out, inputs [][]byte) {
-	cmd := exec.Command(os.Args[0], "C16conc", "quick", "0", os.TempDir())
+	cmd := exec.Command(os.Args[0], "C16conc", "quick", "0", filepath.Join(o.dir, "c16conc"))
 	var in bytes.Buffer
 	for _, s := range inputs {
 		in.WriteString(fHex(s))
@@ -171,7 +172,7 @@ func parseBatch(o *out, inputs [][]byte) [][]int {
 				}
 				return
 			}
-			cmd := exec.Command(os.Args[0], "C16child", "quick", "0", os.TempDir())
+			cmd := exec.Command(os.Args[0], "C16child", "quick", "0", filepath.Join(o.dir, "c16child"))
 			var in bytes.Buffer
 			for _, s := range inputs[lo:hi] {
 				in.WriteString(fHex(s))
